@@ -15,3 +15,4 @@ import J1939.Props.C09
 #print axioms J1939.Props.C09.c09_22_dt_grant
 #print axioms J1939.Props.C09.c09_22_global_source_ignored
 #print axioms J1939.Props.C09.c09_22_cts_window
+#print axioms J1939.Props.C09.c09_22_bam_spacing
